@@ -112,8 +112,11 @@ def _chain(pid, req, t3=None):
     if t3:
         PROPS[pid]["t3"] = t3
 
-_chain("C03", ["ante_accept_sound", "wrong_key_rejected", "mutation_rejected", "low_fee_rejected", "fee_from_signer", "sig_limit_enforced", "sig_limit_within"])
+_chain("C03", ["ante_accept_sound", "wrong_key_rejected", "mutation_rejected", "low_fee_rejected", "fee_from_signer", "sig_limit_enforced", "sig_limit_within", "unknown_signer_rejected", "accounts_run"])
 _chain("C11", ["reject_frame", "readonly_frame", "undecodable_frame", "accept_shape"])
+PROPS["C11"]["lean_modules"] = PROPS["C11"]["lean_modules"] + ["Posmint.Props.C03"]
+PROPS["C11"]["namespaces"] = PROPS["C11"]["namespaces"] + ["Posmint.Props.C03"]
+PROPS["C11"]["required_theorems"] = PROPS["C11"]["required_theorems"] + ["Posmint.Props.C03.accounts_step"]
 _chain("C17", ["param_change_authorised", "change_only_that_key", "dao_authorised", "gov_unauthorised_rejected", "block_ops_keep_gov", "gov_change_authorised", "gov_run", "acl_handover", "acl_drop", "acl_replace", "acl_undecodable", "upgrade_sets_plan"])
 
 _chain("C07", ["slashAmount_exact", "slash_exact", "slash_noop", "doublesign_burns_all", "evidence_expired_ignored", "evidence_refused"])
